@@ -40,6 +40,40 @@ impl Analysis<Ar> for ArDepth {
     }
 }
 
+/// the set of sizes (mod 8) of the terms a class represents: merge is set union (a join that is NOT idempotent
+/// along a cycle: one trip around a self-referential e-node adds a new residue, so the fixpoint of a cyclic class
+/// needs the same e-node to be re-evaluated several times)
+#[derive(Default)]
+pub struct ArSizeSet;
+pub fn sizeset_make(kids: &[u8]) -> u8 {
+    // sums of one residue per child, plus one
+    let mut acc: u8 = 1 << 1; // {1}
+    for k in kids {
+        let mut nxt: u8 = 0;
+        for a in 0..8u32 {
+            if acc & (1 << a) != 0 {
+                for b in 0..8u32 {
+                    if k & (1 << b) != 0 {
+                        nxt |= 1 << ((a + b) % 8);
+                    }
+                }
+            }
+        }
+        acc = nxt;
+    }
+    acc
+}
+impl Analysis<Ar> for ArSizeSet {
+    type Data = u8;
+    fn make(eg: &EGraph<Ar, Self>, n: &Ar) -> u8 {
+        let kids: Vec<u8> = n.applied_id_occurrences().iter().map(|x| *eg.analysis_data(x.id)).collect();
+        sizeset_make(&kids)
+    }
+    fn merge(l: u8, r: u8) -> u8 {
+        l | r
+    }
+}
+
 thread_local! {
     pub static CONST_CONFLICT: std::cell::RefCell<Option<String>> = std::cell::RefCell::new(None);
 }
@@ -315,6 +349,31 @@ impl Oracle for ArDepth {
     }
 }
 
+impl Oracle for ArSizeSet {
+    const NAME: &'static str = "size-set";
+    fn least_fixpoint(eg: &EGraph<Ar, Self>) -> HashMap<Id, u8> {
+        let ids = eg.ids();
+        let mut val: HashMap<Id, u8> = ids.iter().map(|i| (*i, 0u8)).collect();
+        loop {
+            let mut ch = false;
+            for &i in &ids {
+                for n in eg.enodes(i) {
+                    let kids: Vec<u8> = n.applied_id_occurrences().iter().map(|a| val.get(&a.id).copied().unwrap_or(0)).collect();
+                    let v = val[&i] | sizeset_make(&kids);
+                    if v != val[&i] {
+                        val.insert(i, v);
+                        ch = true;
+                    }
+                }
+            }
+            if !ch {
+                break;
+            }
+        }
+        val
+    }
+}
+
 impl Oracle for ConstFold {
     const NAME: &'static str = "const-fold";
     fn least_fixpoint(eg: &EGraph<Ar, Self>) -> HashMap<Id, Option<u32>> {
@@ -485,7 +544,7 @@ impl Prop for AnalysisProp {
             .into_iter()
             .map(|(lvl, d)| {
                 let n = alphabet(lvl).len() as u64;
-                Seg { name: format!("ops{lvl}^{d}"), count: n.pow(d), what: format!("one index = one sequence of {d} operations over a {n}-operation alphabet (insertions of small arithmetic terms - level 2: 16 hand-made terms around cascading merges -, every model-valid union between them, 5 rewrite-iteration rule sets), run under each of the three analyses") }
+                Seg { name: format!("ops{lvl}^{d}"), count: n.pow(d), what: format!("one index = one sequence of {d} operations over a {n}-operation alphabet (insertions of small arithmetic terms - level 2: 16 hand-made terms around cascading merges -, every model-valid union between them, 5 rewrite-iteration rule sets), run under each of the four analyses") }
             })
             .collect()
     }
@@ -493,7 +552,7 @@ impl Prop for AnalysisProp {
         vec!["union_of_classes_with_different_data", "rewrite_iteration", "classes_merged", "constant_class_checked_against_model"]
     }
     fn rule(&self) -> String {
-        "Every ordered sequence of the stated length over: insertion of every arithmetic term of size <=2 (level 1: <=3; level 2: 16 hand-made terms whose unions cascade: parents that become congruent, classes dying into a class with fewer slots), every union of two such terms that denote the same function in F_5 and F_7, and five rewrite-iteration rule sets, is executed three times, under the analyses min-size (merge=min), constant folding in F_5 with a modify hook that adds the constant, and depth (merge=min). After EVERY operation, at EVERY live class: the datum equals the join of make over eg.enodes() on the current data, equals an independently computed least fixpoint, and a union's result absorbs both previous data; analysis_data read through EVERY handle ever returned (all sub-terms, however many merges stale, read before anything canonicalises them) equals the datum of the class the handle now belongs to; at the end min-size equals Extractor::get_best_cost(AstSize), a Some(v) constant class denotes the constant v in the finite-field model, and no two different constants were ever merged. Non-trivial = sequences with a rewrite iteration or a union.".into()
+        "Every ordered sequence of the stated length over: insertion of every arithmetic term of size <=2 (level 1: <=3; level 2: 16 hand-made terms whose unions cascade: parents that become congruent, classes dying into a class with fewer slots), every union of two such terms that denote the same function in F_5 and F_7, and five rewrite-iteration rule sets, is executed four times, under the analyses min-size (merge=min), constant folding in F_5 with a modify hook that adds the constant, depth (merge=min) and size-set (the set of term sizes mod 8 a class represents, merge=set union: a cyclic class reaches its fixpoint only if a self-referential e-node is re-evaluated repeatedly). After EVERY operation, at EVERY live class: the datum equals the join of make over eg.enodes() on the current data, equals an independently computed least fixpoint, and a union's result absorbs both previous data; analysis_data read through EVERY handle ever returned (all sub-terms, however many merges stale, read before anything canonicalises them) equals the datum of the class the handle now belongs to; at the end min-size equals Extractor::get_best_cost(AstSize), a Some(v) constant class denotes the constant v in the finite-field model, and no two different constants were ever merged. Non-trivial = sequences with a rewrite iteration or a union.".into()
     }
     fn assumptions(&self) -> Vec<String> {
         vec!["unions are restricted to model-valid equations so that constant folding has a meaning".into()]
@@ -507,7 +566,7 @@ impl Prop for AnalysisProp {
         let ops = decode(lvl, d, idx);
         let mut out = Exec::default();
         let opsv: Vec<String> = ops.iter().map(|o| o.show()).collect();
-        for which in 0..3 {
+        for which in 0..4 {
             let o2 = ops.clone();
             let r = fresh_thread(move || match which {
                 0 => run::<ArMinSize>(&o2, &|eg, _a, _t, fails, evals| {
@@ -544,7 +603,8 @@ impl Prop for AnalysisProp {
                     }
                     let _ = term_table;
                 }),
-                _ => run::<ArDepth>(&o2, &|_, _, _, _, _| {}),
+                2 => run::<ArDepth>(&o2, &|_, _, _, _, _| {}),
+                _ => run::<ArSizeSet>(&o2, &|_, _, _, _, _| {}),
             });
             out.traces += 1;
             out.transitions += ops.len() as u64;
